@@ -26,11 +26,17 @@ META = dict(
                  'bounded rank: observed natively, outside the proof: index::matmul({1},{3},{3,2},{2}) writes l_slices[-2] of a length-1 vector, AddressSanitizer stack-buffer-overflow). '
                  'shape_matmul and the matmulv2 helpers do handle 1-d operands (proved); natively matmulv2((3,),(3,2)) = [22 28] as numpy',
                  'index::kron_dst_transpose (recursive; its instantiation chain ends in std::vector results, not modelled)',
-                 'outer, vecdot, trace: no index helper of their own (compositions of broadcasting multiply / sum / diagonal: C06, C08, C04)',
+                 'outer: one bounded concrete-geometry unit (outer_2_3.bounded: the real view, (2)x(3), symbolic floats, float * uninterpreted); vecdot, trace: no index helper of their own (compositions of broadcasting multiply / sum / diagonal: C06, C08, C04). '
+                 'A whole-view bounded check of matmul was tried: matmul_t goes through dynamic (std::variant) slices, matmulv2 extracts but its model check does not finish in 25 min',
                  'maybe-lifting overloads and compile-time (constant index) branches (type level)',
                  'both matmul implementations computing equal elements'],
 )
 UNITS = [
+    # concrete-geometry bounded units: the real views end to end, symbolic float elements, float + and * uninterpreted (mode fuf)
+    Unit('outer_2_3.bounded', 'c16k', 'verif_outer_2_3', mode='fuf', plain=True, unwind=8, unwind_loops={'.': 8}, timeout=1500, object_bits=12,
+         bounded='one concrete geometry, symbolic float elements, all loops unwound 8 times', waive=[r'arithmetic overflow on (signed to unsigned|unsigned to signed) type conversion'],
+         clause='outer of two vectors'),
+
     Unit('split.bp', 'c16', 'verif_split', mode='bp', unwind=10, clause='helper'),
     Unit('shape_matmul.bp', 'c16', 'verif_shape_matmul', mode='bp', unwind=10, unwind_loops={'hybrid_ndarray.*resize': 3, 'detail_init_': 3}, object_bits=12, clause='matmul shape'),
     Unit('matmul_slices_22.bp', 'c16', 'verif_matmul_slices_22', mode='bp', unwind=10, clause='matmul element selection: row/column slices of the broadcast batch element (2-d x 2-d)'),
